@@ -358,7 +358,14 @@ impl Writer {
         let mut fsynced = HashSet::new();
         for (blk, _, _) in write_plan.iter() {
             if !fsynced.contains(&blk.file_path) {
-                blk.mmap.flush()?;
+                if let Err(e) = blk.mmap.flush() {
+                    // The batch is reported as failed, so none of it may stay readable.
+                    for (w_blk, w_off, _) in write_plan.iter() {
+                        let _ = w_blk.zero_range(*w_off, PREFIX_META_SIZE as u64);
+                    }
+                    revert_info.rollback(&mut *cur_offset);
+                    return Err(e);
+                }
                 fsynced.insert(blk.file_path.clone());
             }
         }
@@ -556,7 +563,14 @@ impl Writer {
                 let mut fsynced = HashSet::new();
                 for (blk, _, _) in write_plan.iter() {
                     if !fsynced.contains(&blk.file_path) {
-                        blk.mmap.flush()?;
+                        if let Err(e) = blk.mmap.flush() {
+                            // The batch is reported as failed, so none of it may stay readable.
+                            for (w_blk, w_off, _) in write_plan.iter() {
+                                let _ = w_blk.zero_range(*w_off, PREFIX_META_SIZE as u64);
+                            }
+                            revert_info.rollback(cur_offset);
+                            return Err(e);
+                        }
                         fsynced.insert(blk.file_path.clone());
                     }
                 }
